@@ -41,7 +41,7 @@ CHECKS = {
     engine='stream-world', category='fault_enumeration', design_ref='DESIGN.md section 3 (C06)',
     text='For each sampled valid encoding, the producer-crash fault (stream ends after byte k) is enumerated at EVERY cut point k, '
          'in four presentations (bytes, closed seekable stream, closed non-seekable stream, streaming open-then-closed under a seeded '
-         'arrival schedule with read faults while the prefix arrives and around the close), plus prefixes of virtual elements of 16 MiB .. 1 TiB; the oracle is absolute: SubstrateUnderrunError (one-shot), underrun while open, EndOfStreamError after close.',
+         'arrival schedule with read faults while the prefix arrives and around the close), plus prefixes of virtual elements of 16 MiB .. 1 TiB (a few octets or tens of MiB of the content present, on the file and on the non-blocking pipe double); the oracle is absolute: SubstrateUnderrunError (one-shot), underrun while open, EndOfStreamError after close.',
     note='Trusts: validity precondition (well-framed per the independent scanner and accepted by one-shot decode with empty remainder); '
          'the error hierarchy in pyasn1.error. Cut positions are exhaustive per item; items are sampled.',
     technique='deterministic simulation: exhaustive enumeration of the crash point within each seeded workload item, seeded arrival schedules for the surviving prefix'),
@@ -64,18 +64,19 @@ CHECKS = {
          'seeded arrival schedule with drain} x {own, neighbouring, no guiding type}; plus exhaustive sweeps: all strings of length <= 3 '
          'over 14 structural octets, all contents of length <= 3 over 24 content octets for 15 universal types, all lists of at most two '
          'fragments (47 shapes) for three constructed string types in both length forms, REAL texts of length <= 3/4 over 17 characters plus '
-         'long digit strings, very long INTEGER contents. Oracle: value object + bytes remainder, or a PyAsn1Error; deterministic termination bound on stream reads '
+         'long digit strings, very long INTEGER contents, length fields within 18 of 2^15, 2^16, 2^31, 2^32, 2^63, 2^64 behind nine identifiers under six guides. Oracle: value object + bytes remainder, or a PyAsn1Error; deterministic termination bound on stream reads '
          'and on control-flow events (sys.monitoring), so a hang is a replayable verdict.',
     note='Trusts: the depth bound is applied with an upper-bound estimate from the framing scanner; the step budget constants (x20 head-room '
          'over measured valid inputs). Exhaustive only for |b| <= 3 over the reduced alphabet; otherwise sampled.',
     technique='deterministic simulation: seeded stored-byte corruption faults plus arrival schedules, absolute oracle on outcome class, deterministic step budget'),
  'C11': dict(
     engine='stream-world', category='exploration', design_ref='DESIGN.md section 3 (C11)',
-    text='Part A: the same bytes (valid streams, corrupted ones, wide/deep/over-threshold containers from an independent TLV writer) through 10 '
-         'substrate kinds (BytesIO, OctetString, Any, OS file, gzip, zip member, BufferedReader over a raw pipe, non-seekable double raw and '
+    text='Part A: the same bytes (valid streams, corrupted ones, wide/deep/over-threshold containers from an independent TLV writer) through 14 '
+         'substrate kinds (BytesIO, OctetString, Any, OS file buffered and unbuffered, gzip, bz2, lzma, zip member, BufferedReader over a raw pipe, non-seekable double raw and '
          'pre-wrapped, seekable double) with the wrapper drop threshold (4/16/64/8192 and the shipped value with >8 KiB '
          'elements) and the buffer size of files and buffered readers (16/17/64/4096/default) as per-run knobs, plus one decoder per message '
-         'on the same input object (which must stay usable); outcome must equal the outcome on bytes. Part B: seeded operation histories (read/peek/seek-back/set-mark/tell with short '
+         'on the same input object (which must stay usable), and, in a fifth of the plans, debug logging switched on for the whole plan with the '
+         'library code under a deterministic step budget (a hang is an outcome); outcome must equal the outcome on bytes. Part B: seeded operation histories (read/peek/seek-back/set-mark/tell with short '
          'and would-block raw reads) on the real CachingStreamWrapper against a reference model, checked after every operation.',
     note='Trusts: outcome on bytes as the reference; wrapper positions are compared modulo the renumbering at mark points pinned by upstream '
          'testMarkedPositionResets (that renumbering is what breaks the decoder on non-seekable streams: open known finding F6, classified narrowly). '
@@ -84,7 +85,7 @@ CHECKS = {
  'C12': dict(
     engine='task-world', category='exploration', design_ref='DESIGN.md section 3 (C12)',
     text='2-5 codec tasks (encode, decode, streaming decode with its own arrival sub-plan, print, native codec; now and then 1-3 streaming '
-         'decodes of a 20-95 levels deep element parked mid-way) over SHARED schema/value objects, over 0-2 colliding neighbour types (same tag '
+         'decodes of a 20-95 levels deep element parked mid-way, or one-shot calls on input nested 600-1500 levels, beyond the recursion limit) over SHARED schema/value objects, over 0-2 colliding neighbour types (same tag '
          'numbers under the other tagging mode / class / base type; the parent classes of character types with an encoding override), with '
          'decode tasks on input that is not a value of the type, a caller-supplied openTypes mapping as shared configuration, consumer '
          'crashes (a suspended decoder abandoned and restarted) and the module-level codec singletons, under seeded schedules '
@@ -93,14 +94,15 @@ CHECKS = {
          'plan decides every switch), each optionally with debug logging on. Oracles: every task outcome equals the same task alone on fresh '
          'objects after an injected process restart (every enumerated process-global container of pyasn1 - module level, codec singletons, '
          'class level, function defaults - reset to its pristine content; additionally in a forked child for a seeded 2% of runs); semantic snapshots of the shared schema and inputs never '
-         'move; mutating one result moves neither the schema nor another result; module-level state digest and debug scope stack are restored.',
+         'move; mutating one result moves neither the schema nor another result; module-level state digest and debug scope stack are restored; interpreter-wide configuration (recursion limit, int-to-text limit, '
+         'switch interval, warning filters) is what it was in the pristine process.',
     note='Trusts: pre-emption granularity is a Python line inside pyasn1 frames (races inside one bytecode are out of reach and, under the GIL, '
          'not the library\'s concern); snapshot compares public observables modulo lazy instantiation of DEFAULT/OPTIONAL slots. Sampling of schedules, not enumeration.',
     technique='deterministic simulation: seeded interleaving of suspended generators and baton-passed real threads (sys.settrace), differential against isolated execution plus state snapshots'),
  'C19': dict(
     engine='history-world', category='exploration', design_ref='DESIGN.md section 3 (C19) and appendix B',
     text='Seeded operation histories (5-30 operations: mutators, readers, ill-formed operations as injected faults, in-place mutation of nested '
-         'members incl. half-filled nested records, sort under total, coarse and constant keys, slices with negative and omitted bounds, '
+         'members (filled, cleared and reset through reads) incl. half-filled nested records, extend with lists, tuples, iterators and generators, sort under total, coarse and constant keys, slices with negative and omitted bounds, '
          'elements given as objects of narrower subtypes, tag-addressed reads through nested CHOICEs, SIZE-constrained collections that may '
          'start from a decoded object, collections of up to 1030 members, clone with both objects kept under check) over SEQUENCE OF/SET OF (with and without component type), SEQUENCE/SET with declared '
          'fields, CHOICE and valueless scalars; after every step the object is compared with a Python list/dict reference model (content, length, '
@@ -121,7 +123,9 @@ CHECKS = {
          'indefinite lengths, constructed strings, other TRUE octets -, CER/DER decode, clone of another route) with read-only uses (DER/CER/BER '
          'encode, print, iterate, compare, len, in, subscript reads) interleaved after and, for the in-place route, between construction steps; the DER '
          'and the CER bytes of all replicas must be identical, a read-only use must leave bytes and abstract value unchanged, and '
-         'der(decode(der(v))) == der(v) (same for CER). Convergence check of replicated state with the encodings as the compared state.',
+         'der(decode(der(v))) == der(v) (same for CER). For 69 catalogue values the canonical bytes are also written out by hand from X.690: '
+         'decoding those and encoding the result must reproduce them and every replica must have produced them. '
+         'Convergence check of replicated state with the encodings as the compared state.',
     note='Trusts: the plan\'s plain-data value as the abstract value (SET OF = multiset, absent DEFAULT = default). A decoded route that does not '
          'reach the target value (a round-trip defect, C01/C02/C09 territory) is counted as a probe and left out, so decoder defects are not '
          'misattributed. No reference encoder: only history-independence is decided, not X.690 conformance.',
@@ -131,7 +135,7 @@ CHECKS = {
     text='Same fault model as C08 (1-3 stored-byte corruptions of valid encodings, encodings of values of a neighbouring type with constraints '
          'dropped or with exactly one constrained leaf pushed outside - optionally echoed into the unconstrained leaves of that kind -, grammar-aware '
          'tree damage, seeded arrival schedules), restricted to schema-guided decoding over a universe extended with value ranges, sizes (also on '
-         'SEQUENCE OF/SET OF, also through the sizeSpec keyword), permitted alphabets, exclusions, unions, open-ended bounds and twice-refined types. Whenever a decoder RETURNS a value: it must conform to an independent evaluation of the '
+         'SEQUENCE OF/SET OF, also through the sizeSpec keyword, also on collections declared without an element type), permitted alphabets, exclusions, unions, open-ended bounds and twice-refined types. Whenever a decoder RETURNS a value: it must conform to an independent evaluation of the '
          'descriptor (kinds, tag stacks, mandatory components, every scalar and size predicate, one CHOICE alternative), the encoder of the same '
          'family must accept it, and decoding that re-encoding must give the same abstract value.',
     note='Trusts: the well-typedness evaluator works from the descriptor\'s plain data, never from pyasn1 constraint objects; open types are '
